@@ -38,6 +38,12 @@
 #define AQSEL_dns_fd verif_stub_answer_from_qmem(dns_fd
 #define answer_from_qmem(a, b, c, d, e, f) AQSEL_##a, b, c, d, e, f)
 #endif
+#ifdef STUB_GETQ
+#define GQSEL_int verif_real_get_from_outpacketq(int
+#define GQSEL_userid verif_stub_get_from_outpacketq(userid
+#define get_from_outpacketq(a) GQSEL_##a)
+#endif
+#define strchr verif_strchr
 #define main iodined_main
 #define time verif_time
 #define rand verif_rand
@@ -52,6 +58,9 @@
 #define strlen verif_strlen
 #define fprintf verif_fprintf
 
+#ifdef STUB_GETQ
+static int verif_stub_get_from_outpacketq(int userid);
+#endif
 #ifdef STUB_HELPERS
 struct query; struct dnsfd;
 static int verif_stub_send_chunk_or_dataless(int dns_fd, int userid, struct query *q);
@@ -109,7 +118,12 @@ int verif_snprintf(char *buf, size_t n, const char *fmt, ...)
  *   - payload arrays (packet data, cached answers): bounds asserted, the member becomes arbitrary
  *     (over-approximation: also bytes outside the copied range);
  * everything else: bounds asserted, destination range arbitrary, one ghost byte exact. */
+#ifdef VERIF_SHRUNK_TU
+struct tun_user users[1];
+#define slot users[0]
+#else
 struct tun_user slot;
+#endif
 /* the payload of a packet buffer becomes arbitrary: typed struct assignment, scalar fields kept */
 static void verif_any_payload(struct packet *p)
 {
@@ -135,11 +149,16 @@ void *verif_memcpy_t(void *dst, const void *src, size_t n)
 		return dst;
 	__CPROVER_assert(__CPROVER_r_ok(src, n), "memcpy: source readable for n bytes");
 	__CPROVER_assert(__CPROVER_w_ok(dst, n), "memcpy: destination writable for n bytes");
-	if (n == sizeof(struct query)) {
-		*(struct query *)dst = *(const struct query *)src;
-	} else if (__CPROVER_same_object(dst, &slot)) {
+	if (__CPROVER_same_object(dst, &slot)) {      /* (with the 1-slot table, &slot is the table itself) */
 		size_t off = __CPROVER_POINTER_OFFSET(dst);
-		if (off == offsetof(struct tun_user, host)) verif_addr_copy(&slot.host, src, n);
+		/* the offset is a literal at every call site, so exactly one of these is expanded */
+		if (off == offsetof(struct tun_user, q)) { __CPROVER_assert(n == sizeof(struct query), "whole-query copy"); slot.q = *(const struct query *)src; }
+		else if (off == offsetof(struct tun_user, q_sendrealsoon)) { __CPROVER_assert(n == sizeof(struct query), "whole-query copy"); slot.q_sendrealsoon = *(const struct query *)src; }
+		else if (off == offsetof(struct tun_user, dnscache_q[0])) { __CPROVER_assert(n == sizeof(struct query), "whole-query copy"); slot.dnscache_q[0] = *(const struct query *)src; }
+		else if (off == offsetof(struct tun_user, dnscache_q[1])) { __CPROVER_assert(n == sizeof(struct query), "whole-query copy"); slot.dnscache_q[1] = *(const struct query *)src; }
+		else if (off == offsetof(struct tun_user, dnscache_q[2])) { __CPROVER_assert(n == sizeof(struct query), "whole-query copy"); slot.dnscache_q[2] = *(const struct query *)src; }
+		else if (off == offsetof(struct tun_user, dnscache_q[3])) { __CPROVER_assert(n == sizeof(struct query), "whole-query copy"); slot.dnscache_q[3] = *(const struct query *)src; }
+		else if (off == offsetof(struct tun_user, host)) verif_addr_copy(&slot.host, src, n);
 		else if (off == offsetof(struct tun_user, q.from)) verif_addr_copy(&slot.q.from, src, n);
 		else if (off == offsetof(struct tun_user, q.from2)) verif_addr_copy(&slot.q.from2, src, n);
 		else if (off == offsetof(struct tun_user, q_sendrealsoon.from)) verif_addr_copy(&slot.q_sendrealsoon.from, src, n);
@@ -154,16 +173,14 @@ void *verif_memcpy_t(void *dst, const void *src, size_t n)
 		else if (IN_MEMBER(off, dnscache_answer[1])) ANY_ROW(1)
 		else if (IN_MEMBER(off, dnscache_answer[2])) ANY_ROW(2)
 		else if (IN_MEMBER(off, dnscache_answer[3])) ANY_ROW(3)
-		else if (n <= 4 && IN_MEMBER(off, qmemping_cmc)) { size_t k; for (k = 0; k < 4; k++) if (k < n) ((char *)dst)[k] = ((const char *)src)[k]; }
-		else if (n <= 4 && IN_MEMBER(off, qmemdata_cmc)) { size_t k; for (k = 0; k < 4; k++) if (k < n) ((char *)dst)[k] = ((const char *)src)[k]; }
+		else if (n <= 4 && IN_MEMBER(off, qmemping_cmc)) { size_t k, b = off - offsetof(struct tun_user, qmemping_cmc); for (k = 0; k < 4; k++) if (k < n) slot.qmemping_cmc[b + k] = ((const unsigned char *)src)[k]; }
+		else if (n <= 4 && IN_MEMBER(off, qmemdata_cmc)) { size_t k, b = off - offsetof(struct tun_user, qmemdata_cmc); for (k = 0; k < 4; k++) if (k < n) slot.qmemdata_cmc[b + k] = ((const unsigned char *)src)[k]; }
 		else __CPROVER_assert(0, "memcpy into a session member that has no model");
 	} else if (n <= 16) {
 		size_t k;
 		for (k = 0; k < 16; k++)
 			if (k < n)
 				((char *)dst)[k] = ((const char *)src)[k];
-	} else if (n == sizeof(struct sockaddr_storage)) {
-		*(struct sockaddr_storage *)dst = *(const struct sockaddr_storage *)src;
 	} else {
 		unsigned char keep = 0;
 		_Bool has = g_m < n;
@@ -187,9 +204,21 @@ void *verif_memcpy_t(void *dst, const void *src, size_t n)
 	return dst;
 }
 int verif_strcmp(const char *a, const char *b) { return nondet_int(); }
+char *verif_strchr(const char *s, int c)
+{
+	size_t k = nondet_size_t();
+	if (nondet_bool()) return (char *)0;
+	__CPROVER_assume(k < 255 && s[k] == (char)c);
+	return (char *)s + k;
+}
 size_t verif_strlen(const char *s) { size_t n = nondet_size_t(); __CPROVER_assume(n <= 7); return n; } /* only encoder names */
 
 
+#undef strchr
+#ifdef STUB_GETQ
+#undef get_from_outpacketq
+#define get_from_outpacketq verif_real_get_from_outpacketq
+#endif
 #undef memcpy
 #undef strcmp
 #undef strlen
@@ -208,8 +237,22 @@ size_t verif_strlen(const char *s) { size_t n = nondet_size_t(); __CPROVER_assum
 #endif
 
 /* ---- stubs for functions of other translation units ------------------------------------------- */
+#ifndef VERIF_SHRUNK_TU
 struct tun_user *users;
-const struct encoder base32_ops = { "Base32" }, base64_ops = { "Base64" }, base64u_ops = { "Base64u" }, base128_ops = { "Base128" };
+#endif
+static int stub_encode(char *dst, size_t *dstlen, const void *src, size_t srclen) { __CPROVER_assert(0, "encoder not expected here"); return 0; }
+static int stub_decode(void *dst, size_t *dstlen, const char *src, size_t srclen)
+{
+	/* contract of every decoder (C07 groups): at most *dstlen bytes + NUL written, result in 0..*dstlen */
+	int r = nondet_int();
+	__CPROVER_assert(__CPROVER_w_ok(dst, *dstlen + 1), "decoder output has room for *dstlen + 1 bytes");
+	__CPROVER_assert(srclen == 0 || __CPROVER_r_ok(src, srclen), "decoder input readable");
+	__CPROVER_assume(r >= 0 && (size_t)r <= *dstlen);
+	__CPROVER_havoc_slice(dst, *dstlen + 1);
+	return r;
+}
+const struct encoder base32_ops = { "Base32", stub_encode, stub_decode }, base64_ops = { "Base64", stub_encode, stub_decode },
+	base64u_ops = { "Base64u", stub_encode, stub_decode }, base128_ops = { "Base128", stub_encode, stub_decode };
 
 /* decoded request fields are chosen by the harness (case split on the slot index) */
 static int g_b32_script[8], g_b32_n;
@@ -221,6 +264,7 @@ int b32_8to5(int in)
 	return r;
 }
 int b32_5to8(int in) { return nondet_int(); }
+static unsigned char g_unpacked[32];
 static signed char g_unpack0;              /* first decoded byte = userid for L/N/P */
 static int g_unpack_ret;
 int unpack_data(char *buf, size_t buflen, char *data, size_t datalen, const struct encoder *enc)
@@ -229,6 +273,7 @@ int unpack_data(char *buf, size_t buflen, char *data, size_t datalen, const stru
 	__CPROVER_assert(datalen == 0 || __CPROVER_rw_ok(data, datalen), "unpack_data: encoded text inside the name copy");
 	__CPROVER_havoc_slice(buf, 32);
 	buf[0] = g_unpack0;
+	{ int k; for (k = 0; k < 32; k++) g_unpacked[k] = (unsigned char)buf[k]; }   /* ghost copy of what was decoded */
 	__CPROVER_assume(g_unpack_ret >= 0 && (size_t)g_unpack_ret <= buflen);
 	return g_unpack_ret;
 }
@@ -289,6 +334,58 @@ static int verif_stub_answer_from_qmem(int dns_fd, struct query *q, unsigned cha
 #endif
 #endif
 
+#if defined(STUB_HELPERS) && defined(STUB_CONTRACTS)
+/* contract stubs of the stream helpers (each contract is proved on the real helper in its own group) */
+static int g_chunk_calls, g_ack_calls, g_full_calls, g_cache_hits, g_qmem_hits;
+static void any_outstream(void);
+static void count_answer(struct query *q)
+{
+	if (g_answers < 4) g_ans_id[g_answers] = q->id;
+	g_answers++;
+}
+static int verif_stub_send_chunk_or_dataless(int dns_fd, int userid, struct query *q)
+{
+	__CPROVER_assert(userid == 0 && (q == &users[0].q || q == &users[0].q_sendrealsoon), "send_chunk_or_dataless is called for a query held by the session");
+	__CPROVER_assert(q->id != 0, "send_chunk_or_dataless precondition: the query has not been answered yet (id != 0)");
+	g_chunk_calls++;
+	count_answer(q);
+	if (q->id2 != 0) { q->id = q->id2; count_answer(q); }
+	q->id = 0;
+	any_outstream();
+	return nondet_bool();
+}
+static void verif_stub_process_downstream_ack(int userid, int down_seq, int down_frag)
+{
+	__CPROVER_assert(userid == 0, "process_downstream_ack on the checked session");
+	g_ack_calls++;
+	any_outstream();
+}
+static int verif_stub_answer_from_dnscache(int dns_fd, int userid, struct query *q)
+{
+	__CPROVER_assert(userid == 0, "answer_from_dnscache on the checked session");
+	if (nondet_bool()) { g_cache_hits++; count_answer(q); q->id = 0; return 1; }
+	return 0;
+}
+static int verif_stub_answer_from_qmem(int dns_fd, struct query *q, unsigned char *a, unsigned short *b, int c, unsigned char *d)
+{
+	if (nondet_bool()) { g_qmem_hits++; count_answer(q); q->id = 0; return 1; }
+	return 0;
+}
+static void verif_stub_handle_full_packet(int tun_fd, struct dnsfd *dns_fds, int userid)
+{
+	__CPROVER_assert(userid == 0, "handle_full_packet on the checked session");
+	g_full_calls++;
+	if (nondet_bool()) g_tun_writes++;                 /* at most one tun write */
+	else if (nondet_bool()) {                          /* or forwarded to the (same, single) session: may answer one held query */
+		if (users[0].q_sendrealsoon.id != 0) verif_stub_send_chunk_or_dataless(8, 0, &users[0].q_sendrealsoon);
+		else if (users[0].q.id != 0) verif_stub_send_chunk_or_dataless(8, 0, &users[0].q);
+		g_chunk_calls = 0;                             /* not counted as the dispatcher's own calls */
+	}
+	users[0].inpacket.len = 0;
+	users[0].inpacket.offset = 0;
+}
+#endif
+
 /* ---- single-slot state --------------------------------------------------------------------- */
 static struct query g_q;
 
@@ -308,8 +405,12 @@ static struct query g_q;
 
 static void any_server_state(void)
 {
+#ifdef VERIF_SHRUNK_TU
+	__CPROVER_havoc_object(users);
+#else
 	__CPROVER_havoc_object(&slot);
 	users = &slot;
+#endif
 	created_users = 1;
 	g_now = nondet_long();
 	__CPROVER_assume(g_now >= 0 && g_now < (1L << 40));
@@ -458,16 +559,34 @@ void h_cmd_guarded(void)
 			slot.outpacketq_nexttouse = nx_; slot.outpacketq_filled = f_; BODY; return; } \
 	__CPROVER_assert(0, "queue state outside SESSION_WF"); } while (0)
 
+#ifdef STUB_GETQ
+/* contract of get_from_outpacketq, proved on the real function in group srv_outpacket_queue */
+static int verif_stub_get_from_outpacketq(int userid)
+{
+	__CPROVER_assert(userid == 0, "get_from_outpacketq on the checked session");
+	if (slot.outpacketq_filled <= 0)
+		return 0;
+	slot.outpacket.len = nondet_int();
+	__CPROVER_assume(slot.outpacket.len >= 0 && slot.outpacket.len <= (int)sizeof(slot.outpacket.data));
+	slot.outpacket.offset = 0; slot.outpacket.sentlen = 0; slot.outpacket.fragment = 0;
+	slot.outpacket.seqno = (slot.outpacket.seqno + 1) & 7; slot.outfragresent = 0;
+	verif_any_payload(&slot.outpacket);
+	slot.outpacketq_nexttouse = (slot.outpacketq_nexttouse + 1) % OUTPACKETQ_LEN;
+	slot.outpacketq_filled--;
+	return 1;
+}
+#endif
+
 /* ---- downstream fragments (C15, C14, C01 transfer clause) ---------------------------------------- */
-static void body_send_chunk(void);
+static void body_send_chunk(struct query *q);
 void h_send_chunk(void)
 {
 	any_server_state();
-	FOR_EACH_QUEUE_STATE(body_send_chunk());
+	if (nondet_bool()) body_send_chunk(&slot.q);            /* the two queries a session may hold, literal pointer each */
+	else body_send_chunk(&slot.q_sendrealsoon);
 }
-static void body_send_chunk(void)
+static void body_send_chunk(struct query *q)
 {
-	struct query *q = nondet_bool() ? &slot.q : &slot.q_sendrealsoon;   /* the two queries a session may hold */
 	__CPROVER_assume(q->id != 0);                                      /* obligation at every call site, see dispatcher groups */
 	int F = slot.fragsize, len0 = slot.outpacket.len, off0 = slot.outpacket.offset, resent0 = slot.outfragresent;
 	int frag0 = slot.outpacket.fragment, qf0 = slot.outpacketq_filled;
@@ -570,6 +689,132 @@ void h_probe(void)
 	{ int u = slot.outpacketq_nexttouse; int n = slot.outpacketq[u].len; __CPROVER_assert(n == 0 || __CPROVER_r_ok(slot.outpacketq[u].data, n), "r"); }
 #endif
 	__CPROVER_assert(SESSION_WF(slot), "wf");
+	VERIF_REACH();
+}
+#endif
+
+/* ---- Z, Y: open probes - answered for anybody, must not touch any session -------------------------- */
+void h_cmd_open(void)
+{
+	any_server_state();
+	int domain_len = set_cmd();
+	g_b32_script[0] = nondet_int(); g_b32_script[1] = nondet_int(); g_b32_script[2] = nondet_int();
+	struct snap s0 = take_snap();
+	handle_null_request(7, 8, (struct dnsfd *)0, &g_q, domain_len);
+	__CPROVER_assert(PRIV_UNCHANGED(s0) && slot.last_pkt == s0.last_pkt, "an open probe changes no session");
+	__CPROVER_assert(g_answers == (domain_len >= 2), "exactly one answer (none for names shorter than 2)");
+	__CPROVER_assert(g_tun_writes == 0 && g_sendto == 0, "no tun write, no raw send");
+	VERIF_REACH();
+}
+
+/* ---- V: version handshake: may (re)allocate a slot, never authenticates ----------------------------- */
+void h_cmd_version(void)
+{
+	any_server_state();
+	int domain_len = set_cmd();
+	g_unpack0 = (signed char)nondet_int(); g_unpack_ret = nondet_int();
+	g_fau_ret = nondet_bool() ? 0 : -1;
+	struct snap s0 = take_snap();
+	_Bool reusable = (!slot.active || slot.last_pkt + 60 < g_now) && !slot.disabled;
+	handle_null_request(7, 8, (struct dnsfd *)0, &g_q, domain_len);
+	_Bool taken = slot.seed != s0.seed || slot.q.id != s0.q_id || slot.hostlen != s0.hostlen || slot.fragsize != s0.fragsize || slot.active != s0.active || slot.conn != s0.conn;
+	/* C03: a new challenge always comes with a cleared login; V never sets the login flags */
+	__CPROVER_assert(slot.authenticated == 0 || (slot.authenticated == s0.authenticated && slot.seed == s0.seed), "a version request never authenticates, and a new challenge clears the login");
+	__CPROVER_assert(slot.authenticated_raw == 0 || (slot.authenticated_raw == s0.authenticated_raw && slot.seed == s0.seed), "a new challenge clears the raw login");
+	/* C04: a slot is taken over only if it was unused or silent for more than 60 s */
+	__CPROVER_assert(!taken || reusable, "a version request never takes over a session that was active during the last 60 seconds");
+	__CPROVER_assert(!taken || (slot.fragsize == 100 && slot.conn == CONN_DNS_NULL && slot.lazy == 0 && slot.q.id == 0 && slot.q_sendrealsoon.id == 0 && slot.inpacket.len == 0 && slot.outpacket.len == 0 && slot.hostlen == g_q.fromlen), "a fresh session starts with the conservative fragment size 100, DNS mode, empty buffers, bound to the sender");
+	__CPROVER_assert(g_answers == (domain_len >= 2) && (domain_len < 2 || g_paylen == 9), "one 9-byte VACK/VNAK/VFUL answer");
+	__CPROVER_assert(g_tun_writes == 0 && g_sendto == 0, "no tun write, no raw send");
+	__CPROVER_assert(taken || PRIV_UNCHANGED(s0), "otherwise nothing changes");
+	__CPROVER_assert(SESSION_WF(slot) || !taken, "the session invariant holds for the fresh session");
+	VERIF_REACH();
+}
+
+/* ---- L: login: the only place that sets `authenticated` ------------------------------------------------ */
+void h_cmd_login(void)
+{
+	any_server_state();
+	int domain_len = set_cmd();
+	int uid = case_uid(), i;
+#if H_UID_CASE == 1
+	__CPROVER_assume(uid >= -128 && uid <= 127);
+#endif
+	g_unpack0 = (signed char)uid; g_unpack_ret = nondet_int();
+	for (i = 0; i < 16; i++) g_login_out[i] = nondet_uchar();
+	struct snap s0 = take_snap();
+	_Bool live = LIVE0(uid);
+	handle_null_request(7, 8, (struct dnsfd *)0, &g_q, domain_len);
+	_Bool hash_ok = 1;
+	for (i = 0; i < 16; i++) hash_ok = hash_ok && g_unpacked[1 + i] == g_login_out[i];
+	/* C03: the login flag rises only for a live session from its own source whose 16 submitted bytes
+	 * equal the response computed from the server password and THAT session's current challenge */
+	__CPROVER_assert(slot.authenticated == s0.authenticated || (slot.authenticated == 1 && live && domain_len >= 2 && g_unpack_ret >= 18 && hash_ok && g_login_calls == 1 && g_login_seed == s0.seed), "login succeeds only with the response for the session's current challenge");
+	__CPROVER_assert(slot.seed == s0.seed && slot.authenticated_raw == s0.authenticated_raw && slot.conn == s0.conn && slot.encoder == s0.encoder && slot.downenc == s0.downenc && slot.fragsize == s0.fragsize && slot.lazy == s0.lazy && slot.options_locked == s0.options_locked && slot.hostlen == s0.hostlen && slot.active == s0.active, "login changes nothing else");
+	__CPROVER_assert(live || (slot.last_pkt == s0.last_pkt && slot.authenticated == s0.authenticated), "a login for a dead session or from a foreign source changes nothing");
+	__CPROVER_assert(live || domain_len < 2 || (g_answers == 1 && (PAY_IS("BADIP") || PAY_IS("BADLEN"))), "... and is answered BADIP/BADLEN");
+	__CPROVER_assert(g_answers <= 1 && g_tun_writes == 0 && g_sendto == 0, "at most one answer, no tun write, no raw send");
+	VERIF_REACH();
+}
+
+
+#if defined(STUB_HELPERS) && defined(STUB_CONTRACTS)
+/* downstream stream state after a helper ran: arbitrary within SESSION_WF (their exact effect is
+ * proved in the helper groups) */
+static void any_outstream(void)
+{
+	slot.outpacket.len = nondet_int(); slot.outpacket.offset = nondet_int(); slot.outpacket.sentlen = nondet_int();
+	slot.outpacket.fragment = (char)nondet_int(); slot.outpacket.seqno = (char)nondet_int(); slot.outfragresent = nondet_int();
+	slot.outpacketq_filled = nondet_int(); slot.outpacketq_nexttouse = nondet_int();
+	slot.dnscache_lastfilled = nondet_int(); slot.qmemping_lastfilled = nondet_int(); slot.qmemdata_lastfilled = nondet_int();
+	__CPROVER_assume(SESSION_WF(slot));
+}
+int recent_seqno(int ourseqno, int gotseqno) { return nondet_bool(); }
+#define TOKENS(qq) ((qq).id != 0 ? 1 + ((qq).id2 != 0) : 0)
+
+/* ---- P and data: the stream commands (C14 token accounting, C16 duplicates, C03 guard) ----------------- */
+void h_cmd_stream(void)
+{
+	any_server_state();
+	int domain_len = nondet_int();
+	__CPROVER_assume(domain_len >= 0 && domain_len <= 255);
+	int uid = case_uid(), i;
+#if H_CMD == 'P'
+	g_q.name[0] = 'P';
+#if H_UID_CASE == 1
+	__CPROVER_assume(uid >= -128 && uid <= 127);
+#endif
+	g_unpack0 = (signed char)uid; g_unpack_ret = nondet_int();
+#else
+#if H_UID_CASE == 0
+	g_q.name[0] = '0';
+#else
+	{ char c = (char)nondet_int(); __CPROVER_assume((c >= '1' && c <= '9') || (c >= 'a' && c <= 'f') || (c >= 'A' && c <= 'F')); g_q.name[0] = c;
+	  uid = c <= '9' ? c - '0' : (c >= 'a' ? c - 'a' + 10 : c - 'A' + 10); }
+	g_unpack_ret = nondet_int();
+#endif
+#endif
+	for (i = 0; i < 8; i++) g_b32_script[i] = nondet_int();
+	g_chunk_calls = g_ack_calls = g_full_calls = g_cache_hits = g_qmem_hits = 0;
+	struct snap s0 = take_snap();
+	_Bool auth = LIVE0(uid) && slot.authenticated;
+	int before = (g_q.id != 0) + TOKENS(slot.q) + TOKENS(slot.q_sendrealsoon);
+	unsigned short qid0 = g_q.id, hq_id2 = slot.q.id2, hs_id2 = slot.q_sendrealsoon.id2;
+	handle_null_request(7, 8, (struct dnsfd *)0, &g_q, domain_len);
+	int after = TOKENS(slot.q) + TOKENS(slot.q_sendrealsoon);
+	/* C14: answers are paid for by queries: every answer consumes a received, not yet answered query */
+	__CPROVER_assert(g_answers + after <= before, "no surplus answer: answers + queries still held <= query received + queries held before");
+	__CPROVER_assert(qid0 != 0 || (g_answers == 0 && PRIV_UNCHANGED(s0) && slot.last_pkt == s0.last_pkt), "a query with DNS id 0 is ignored");
+	/* C03/C04 */
+	__CPROVER_assert(auth || (PRIV_UNCHANGED(s0) && slot.last_pkt == s0.last_pkt && g_tun_writes == 0 && g_full_calls == 0 && g_chunk_calls == 0), "without a live authenticated session from its own source nothing is delivered, sent downstream or changed");
+	__CPROVER_assert(auth || qid0 == 0 || g_answers <= 1, "... and at most a BADIP goes back");
+	/* C16: a re-delivered query that hits the answer cache or the query memory touches nothing */
+	__CPROVER_assert(!(g_cache_hits || g_qmem_hits) || (PRIV_UNCHANGED(s0) && slot.last_pkt == s0.last_pkt && g_answers == 1 && g_full_calls == 0 && g_ack_calls == 0 && g_chunk_calls == 0 && slot.q.id2 == hq_id2 && slot.q_sendrealsoon.id2 == hs_id2),
+			 "a cache / query-memory hit is answered once and neither appends upstream data nor moves the downstream stream");
+	__CPROVER_assert(g_full_calls <= 1 && (g_tun_writes == 0 || g_full_calls == 1), "at most one packet is delivered, and only through handle_full_packet");
+	__CPROVER_assert(g_sendto == 0, "no raw send");
+	__CPROVER_assert(slot.authenticated == s0.authenticated && slot.authenticated_raw == s0.authenticated_raw && slot.seed == s0.seed && slot.conn == s0.conn && slot.encoder == s0.encoder && slot.downenc == s0.downenc && slot.fragsize == s0.fragsize && slot.lazy == s0.lazy && slot.options_locked == s0.options_locked && slot.hostlen == s0.hostlen, "stream commands never change login state or session options");
+	__CPROVER_assert(SESSION_WF(slot), "the session invariant is preserved");
 	VERIF_REACH();
 }
 #endif
